@@ -3,5 +3,5 @@ CONSTANTS
   Callbacks = {"c1", "c2"}
   MaxAborts = 2
 SPECIFICATION Spec
-INVARIANTS DoneOnce ResultStable CallbacksAtMostOnce CallbacksAfterDone BoundedStop PoliteNeverTooLong
+INVARIANTS GoneWhenDone PipesClosedWhenGone DoneOnce ResultStable CallbacksAtMostOnce CallbacksAfterDone BoundedStop PoliteNeverTooLong
 PROPERTIES StopsAfterAbort CallbacksEventually
